@@ -7,8 +7,8 @@ def spTpLive : TPState → Bool
   | _ => true
 
 def shTp (k : Nat) (p : PTokParam) : PTokParam :=
-  { p with all := if spTpLive p.state then shF k p.all else p.all,
-           name := if spTpLive p.state then shF k p.name else p.name,
+  { p with all := if spTpLive p.state then shF k p.all else shO k p.all,
+           name := if spTpLive p.state then shF k p.name else shO k p.name,
            val := shP k p.val }
 
 def spTpNz (p : PTokParam) : PTokParam := if p.state = .err then { p with all := {}, name := {} } else p
@@ -289,13 +289,39 @@ theorem SpTpPos.mono {i j : Nat} {p : PTokParam} (h : SpTpPos i p) (hij : i ≤ 
 theorem SpTpPos.new (i : Nat) : SpTpPos i {} :=
   ⟨(fun h => nomatch h), fun h => h.elim (fun h => nomatch h) (fun h => nomatch h)⟩
 
-theorem spTpLWS_pos (b : Buf) (flags i : Nat) (p : PTokParam) (upd : PTokParam → PTokParam)
+def spIsMB : Err → Bool
+  | .moreBytes => true
+  | _ => false
+
+/-- what a finishing step guarantees for the position invariant: a MoreBytes exit returns a legitimate object -/
+def SpTpPosT (o : Nat) (e : Err) (q : PTokParam) : Prop := spIsMB e = false ∨ SpTpPos o q
+
+theorem spTpEOH_posT (p : PTokParam) (n crl : Nat) :
+    SpTpPosT (tpEOH p n crl).1 (tpEOH p n crl).2.1 (tpEOH p n crl).2.2 := by
+  unfold tpEOH; split <;> exact Or.inl rfl
+
+theorem spTpMoreBytes_posT (b : Buf) (flags : Nat) (p : PTokParam) (i : Nat) (hP : SpTpPos i p) :
+    SpTpPosT (tpMoreBytes b flags p i).1 (tpMoreBytes b flags p i).2.1 (tpMoreBytes b flags p i).2.2 := by
+  unfold tpMoreBytes
+  split
+  · split
+    all_goals first
+      | exact spTpEOH_posT _ _ _
+      | exact Or.inr hP
+      | exact Or.inl rfl
+  · exact Or.inr hP
+
+theorem spTpLWS_pos (b : Buf) (flags i : Nat) (p : PTokParam) (upd : PTokParam → PTokParam) (hP : SpTpPos i p)
     (hu : ∀ n, i ≤ n → SpTpPos n (upd p)) :
-    StepAll2 SpTpPos (fun _ _ _ => True) (tpLWS b flags i p upd) := by
+    StepAll2 SpTpPos SpTpPosT (tpLWS b flags i p upd) := by
   unfold tpLWS
   rcases hsk : skipLWS b i flags with ⟨n, crl, e⟩
   have hr := skipLWS_range b i flags hsk
-  cases e <;> simp only [stepOfRes] <;> first | trivial | exact hu n hr.1
+  cases e <;> simp only [stepOfRes]
+  case moreBytes => exact spTpMoreBytes_posT b flags p i hP
+  case ok => exact hu n hr.1
+  case eoh => exact spTpEOH_posT _ _ _
+  all_goals exact Or.inl rfl
 
 theorem spSetOffs (i : Nat) (h1 : 1 ≤ i) (h2 : i ≤ 65535) : 1 ≤ (PField.set i i).offs := by
   unfold PField.set trunc16; simp only; omega
@@ -323,7 +349,7 @@ theorem spPos_v (n : Nat) (q : PTokParam) (h1 : spIsFVal q.state = false) (hv : 
 
 theorem spTpStep_pos (flags o0 : Nat) (b : Buf) (i : Nat) (c : UInt8) (p : PTokParam) (hb : b[i]? = some c)
     (hfit : b.size ≤ 65535) (hP : SpTpPos i p) :
-    StepAll2 SpTpPos (fun _ _ _ => True) (tpStep flags o0 b i c p) := by
+    StepAll2 SpTpPos SpTpPosT (tpStep flags o0 b i c p) := by
   have hlt := get?_lt hb
   have hi5 : i ≤ 65535 := by omega
   unfold tpStep
@@ -331,28 +357,102 @@ theorem spTpStep_pos (flags o0 : Nat) (b : Buf) (i : Nat) (c : UInt8) (p : PTokP
   cases hst : p.state <;> simp only
   case quotedVal =>
     rcases hq : skipQuoted b i with ⟨n, e⟩
+    have h2 := skipQuoted_range b i (by omega) hq
     cases e <;> simp only [stepOfRes]
     case ok => exact spPos_vac _ _ rfl rfl
-    all_goals trivial
+    case moreBytes => exact spTpMoreBytes_posT b flags p n (hP.mono h2.1)
+    case eoh => exact spTpEOH_posT _ _ _
+    all_goals exact Or.inl rfl
   case err => exact hP.mono (Nat.le_succ i)
   case fin => exact hP.mono (Nat.le_succ i)
   all_goals
     by_cases hl : isLWSch c = true
     · simp only [hl, ↓reduceIte]
       first
-        | exact spTpLWS_pos b flags i p id (fun n hn => hP.mono hn)
-        | exact spTpLWS_pos b flags i p _ (fun n hn => spPos_vac _ _ rfl rfl)
+        | exact spTpLWS_pos b flags i p id hP (fun n hn => hP.mono hn)
+        | exact spTpLWS_pos b flags i p _ hP (fun n hn => spPos_vac _ _ rfl rfl)
     · simp only [hl, Bool.false_eq_true, ↓reduceIte]
       repeat' split
       all_goals first
-        | trivial
+        | exact Or.inl rfl
         | exact hP.mono (Nat.le_succ i)
         | exact spPos_vac _ _ rfl rfl
         | exact spPos_fv _ _ rfl (Nat.succ_le_succ (Nat.zero_le i))
         | exact spPos_v _ _ rfl (spSetOffs i (hP.fv hst) hi5)
-        | (unfold tpSpTermEq; split <;> trivial)
+        | (unfold tpSpTermEq; split <;> exact Or.inl rfl)
         | (unfold tpSpTermSep; simp only; repeat' split
-           all_goals trivial)
+           all_goals exact Or.inl rfl)
+
+/-! ### a verdict other than an error never leaves the object in the error state -/
+
+def spNotErr : TPState → Bool
+  | .err => false
+  | _ => true
+
+/-- the verdicts after which the object is meaningful: OK, MoreValues, end of header, MoreBytes -/
+def spGoodV : Err → Bool
+  | .ok | .moreValues | .eoh | .moreBytes => true
+  | _ => false
+
+def SpNoErrT (_ : Nat) (e : Err) (q : PTokParam) : Prop := spGoodV e = false ∨ spNotErr q.state = true
+
+theorem spTpEOH_noerr (p : PTokParam) (n crl : Nat) (hS : spNotErr p.state = true) :
+    SpNoErrT (tpEOH p n crl).1 (tpEOH p n crl).2.1 (tpEOH p n crl).2.2 := by
+  unfold tpEOH; split <;> first | exact Or.inl rfl | exact Or.inr rfl | exact Or.inr hS
+
+theorem spTpMoreBytes_noerr (b : Buf) (flags : Nat) (p : PTokParam) (i : Nat) (hS : spNotErr p.state = true) :
+    SpNoErrT (tpMoreBytes b flags p i).1 (tpMoreBytes b flags p i).2.1 (tpMoreBytes b flags p i).2.2 := by
+  unfold tpMoreBytes
+  split
+  · split
+    all_goals first
+      | exact spTpEOH_noerr _ _ _ hS
+      | exact Or.inr hS
+      | exact Or.inl rfl
+  · exact Or.inr hS
+
+theorem spTpLWS_noerr (b : Buf) (flags i : Nat) (p : PTokParam) (upd : PTokParam → PTokParam)
+    (hS : spNotErr p.state = true) (hu : spNotErr (upd p).state = true) :
+    StepAll2 (fun _ q => spNotErr q.state = true) SpNoErrT (tpLWS b flags i p upd) := by
+  unfold tpLWS
+  rcases hsk : skipLWS b i flags with ⟨n, crl, e⟩
+  cases e <;> simp only [stepOfRes]
+  case moreBytes => exact spTpMoreBytes_noerr b flags p i hS
+  case ok => exact hu
+  case eoh => exact spTpEOH_noerr _ _ _ hu
+  all_goals first | exact Or.inl rfl | exact Or.inr hu
+
+theorem spTpStep_noerr (flags o0 : Nat) (b : Buf) (i : Nat) (c : UInt8) (p : PTokParam)
+    (hS : spNotErr p.state = true) :
+    StepAll2 (fun _ q => spNotErr q.state = true) SpNoErrT (tpStep flags o0 b i c p) := by
+  unfold tpStep
+  simp only
+  cases hst : p.state <;> simp only
+  case quotedVal =>
+    rcases hq : skipQuoted b i with ⟨n, e⟩
+    cases e <;> simp only [stepOfRes]
+    case ok => rfl
+    case moreBytes => exact spTpMoreBytes_noerr b flags p n hS
+    case eoh => exact spTpEOH_noerr _ _ _ hS
+    all_goals first | exact Or.inl rfl | exact Or.inr hS
+  case err => rw [hst] at hS; cases hS
+  case fin => exact hS
+  all_goals
+    by_cases hl : isLWSch c = true
+    · simp only [hl, ↓reduceIte]
+      first
+        | exact spTpLWS_noerr b flags i p id hS hS
+        | exact spTpLWS_noerr b flags i p _ hS rfl
+    · simp only [hl, Bool.false_eq_true, ↓reduceIte]
+      repeat' split
+      all_goals first
+        | exact Or.inl rfl
+        | exact Or.inr rfl
+        | exact hS
+        | rfl
+        | (unfold tpSpTermEq; split <;> exact Or.inr rfl)
+        | (unfold tpSpTermSep; simp only; repeat' split
+           all_goals exact Or.inr rfl)
 
 /-! ### generic loop theorem, two machines (the token-parameter machine depends on the start offset of the call) -/
 
@@ -429,4 +529,606 @@ theorem parseTokenParam_shiftN (pre t : Buf) (o : Nat) (p : PTokParam) (flags : 
       (fun i c q hb hI => spTpStep_shift flags o pre t i c q hb hfit hI.1 hI.2)
       (fun i q _ hI => spTpMoreBytes_shift pre t flags q i hfit hI.1.hi hI.1.fl hI.2)
       o p ⟨⟨Nat.le_refl _, ho, hE.1⟩, hE.2⟩
+
+theorem spTpNz_id {p : PTokParam} (h : p.state ≠ .err) : spTpNz p = p := by
+  unfold spTpNz; rw [if_neg h]
+
+theorem spTpNz_state (p : PTokParam) : (spTpNz p).state = p.state := by
+  unfold spTpNz; split <;> rfl
+
+theorem spNotErr_ne {s : TPState} (h : spNotErr s = true) : s ≠ .err := by
+  intro hh; rw [hh] at h; cases h
+
+theorem spNotErr_of_ne {s : TPState} (h : s ≠ .err) : spNotErr s = true := by
+  cases s <;> first | rfl | exact absurd rfl h
+
+/-- after OK / MoreValues / end of header / MoreBytes the returned object is not in the error state (given that the
+    object passed in was not) -/
+theorem parseTokenParam_good_state (b : Buf) (o : Nat) (p : PTokParam) (flags : Nat) (hs : p.state ≠ .err)
+    (hg : spGoodV (parseTokenParam b o p flags).2.1 = true) : (parseTokenParam b o p flags).2.2.state ≠ .err := by
+  have key : SpNoErrT (parseTokenParam b o p flags).1 (parseTokenParam b o p flags).2.1
+      (parseTokenParam b o p flags).2.2 := by
+    unfold parseTokenParam
+    split
+    · exact Or.inr (spNotErr_of_ne hs)
+    · exact runLoop_safe2 (tpMachine flags o) b (fun _ q => spNotErr q.state = true) SpNoErrT (tp_progress flags o)
+        (fun i c st _ hS => spTpStep_noerr flags o b i c st hS)
+        (fun i st hS => spTpMoreBytes_noerr b flags st i hS) o p (spNotErr_of_ne hs)
+  rcases key with h | h
+  · rw [hg] at h; cases h
+  · exact spNotErr_ne h
+
+/-- the plain form: whenever the run on `t` does not end in the error state -/
+theorem parseTokenParam_shift_of_state (pre t : Buf) (o : Nat) (p : PTokParam) (flags : Nat)
+    (hfit : pre.size + t.size ≤ 65535) (ho : o ≤ t.size) (hE : SpTpEntry o p)
+    (hne : (parseTokenParam t o p flags).2.2.state ≠ .err) :
+    parseTokenParam (pre ++ t) (pre.size + o) (shTp pre.size p) flags =
+      shRes pre.size (shTp pre.size) (parseTokenParam t o p flags) := by
+  have h := parseTokenParam_shiftN pre t o p flags hfit ho hE
+  rcases hr : parseTokenParam t o p flags with ⟨o1, e1, p1⟩
+  rcases hr' : parseTokenParam (pre ++ t) (pre.size + o) (shTp pre.size p) flags with ⟨o2, e2, p2⟩
+  rw [hr] at h hne
+  rw [hr'] at h
+  simp only [resN, shRes, Prod.mk.injEq] at h
+  obtain ⟨h1, h2, h3⟩ := h
+  have hs1 : (shTp pre.size p1).state ≠ .err := hne
+  rw [spTpNz_id hs1] at h3
+  have hs2 : p2.state ≠ .err := by
+    rw [← spTpNz_state p2, h3]; exact hs1
+  rw [spTpNz_id hs2] at h3
+  simp only [shRes, h1, h2, h3]
+
+/-- **ParseTokenParam is position independent** (every flag combination, every legitimate object): after OK /
+    MoreValues / end of header / MoreBytes the call behind `pre` returns the offset moved by `k = pre.size`, the same
+    verdict and the translated object -/
+theorem parseTokenParam_shift (pre t : Buf) (o : Nat) (p : PTokParam) (flags : Nat)
+    (hfit : pre.size + t.size ≤ 65535) (ho : o ≤ t.size) (hE : SpTpEntry o p) (hs : p.state ≠ .err)
+    (hg : spGoodV (parseTokenParam t o p flags).2.1 = true) :
+    parseTokenParam (pre ++ t) (pre.size + o) (shTp pre.size p) flags =
+      shRes pre.size (shTp pre.size) (parseTokenParam t o p flags) :=
+  parseTokenParam_shift_of_state pre t o p flags hfit ho hE (parseTokenParam_good_state t o p flags hs hg)
+
+/-- … from a new object, at any start offset -/
+theorem parseTokenParam_shift_new (pre t : Buf) (o : Nat) (flags : Nat)
+    (hfit : pre.size + t.size ≤ 65535) (ho : o ≤ t.size) (hg : spGoodV (parseTokenParam t o {} flags).2.1 = true) :
+    parseTokenParam (pre ++ t) (pre.size + o) {} flags =
+      shRes pre.size (shTp pre.size) (parseTokenParam t o {} flags) :=
+  parseTokenParam_shift pre t o {} flags hfit ho (SpTpEntry.new o) (fun h => nomatch h) hg
+
+/-- every verdict (errors included): offset moved by `k`, same verdict, same state and panic flag, value field moved
+    unless absent; after an error only `all` / `name` are not compared -/
+theorem parseTokenParam_shift_any (pre t : Buf) (o : Nat) (p : PTokParam) (flags : Nat)
+    (hfit : pre.size + t.size ≤ 65535) (ho : o ≤ t.size) (hE : SpTpEntry o p) :
+    (parseTokenParam (pre ++ t) (pre.size + o) (shTp pre.size p) flags).1 =
+      pre.size + (parseTokenParam t o p flags).1 ∧
+    (parseTokenParam (pre ++ t) (pre.size + o) (shTp pre.size p) flags).2.1 = (parseTokenParam t o p flags).2.1 ∧
+    (parseTokenParam (pre ++ t) (pre.size + o) (shTp pre.size p) flags).2.2.state =
+      (parseTokenParam t o p flags).2.2.state ∧
+    (parseTokenParam (pre ++ t) (pre.size + o) (shTp pre.size p) flags).2.2.pnc =
+      (parseTokenParam t o p flags).2.2.pnc ∧
+    (parseTokenParam (pre ++ t) (pre.size + o) (shTp pre.size p) flags).2.2.val =
+      shP pre.size (parseTokenParam t o p flags).2.2.val := by
+  have h := parseTokenParam_shiftN pre t o p flags hfit ho hE
+  rcases hr : parseTokenParam t o p flags with ⟨o1, e1, p1⟩
+  rcases hr' : parseTokenParam (pre ++ t) (pre.size + o) (shTp pre.size p) flags with ⟨o2, e2, p2⟩
+  rw [hr, hr'] at h
+  simp only [resN, shRes, Prod.mk.injEq] at h
+  obtain ⟨h1, h2, h3⟩ := h
+  refine ⟨h1, h2, ?_, ?_, ?_⟩
+  · have := congrArg PTokParam.state h3
+    rw [spTpNz_state, spTpNz_state] at this; exact this
+  · have := congrArg PTokParam.pnc h3
+    have e : ∀ q : PTokParam, (spTpNz q).pnc = q.pnc := by intro q; unfold spTpNz; split <;> rfl
+    rw [e, e] at this; exact this
+  · have := congrArg PTokParam.val h3
+    have e : ∀ q : PTokParam, (spTpNz q).val = q.val := by intro q; unfold spTpNz; split <;> rfl
+    rw [e, e] at this; exact this
+
+/-- after MoreBytes the returned object is a legitimate argument at the returned offset (so the theorems apply to
+    the resumed call as well) -/
+theorem parseTokenParam_shiftEntry (b : Buf) (o : Nat) (p : PTokParam) (flags : Nat) (hfit : b.size ≤ 65535)
+    (ho : o ≤ b.size) (hE : SpTpEntry o p) (hm : (parseTokenParam b o p flags).2.1 = .moreBytes) :
+    SpTpEntry (parseTokenParam b o p flags).1 (parseTokenParam b o p flags).2.2 := by
+  have h1 := (parseTokenParam_safe b o p flags ho hE.1).tight (Or.inl (by rw [hm]; decide))
+  have key : SpTpPosT (parseTokenParam b o p flags).1 (parseTokenParam b o p flags).2.1
+      (parseTokenParam b o p flags).2.2 := by
+    unfold parseTokenParam
+    split
+    · exact Or.inl rfl
+    · exact runLoop_safe2 (tpMachine flags o) b SpTpPos SpTpPosT (tp_progress flags o)
+        (fun i c st hb hS => spTpStep_pos flags o b i c st hb hfit hS)
+        (fun i st hS => spTpMoreBytes_posT b flags st i hS) o p hE.2
+  rcases key with h | h
+  · rw [hm] at h; cases h
+  · exact ⟨h1, h⟩
+
+/-! ### the URI parameter list -/
+
+def shUp (k : Nat) (u : URIParam) : URIParam := { u with param := shTp k u.param }
+
+/-- **the URI-parameter list moved by `k`**: every slot and the scratch element moved with `shTp k`; count, type
+    mask and panic flag unchanged -/
+def shPl (k : Nat) (l : URIParamsLst) : URIParamsLst :=
+  { l with params := l.params.map (shUp k), tmp := shUp k l.tmp }
+
+theorem shUp_new (k : Nat) : shUp k {} = {} := rfl
+
+theorem shPl_new (k m : Nat) :
+    shPl k ({ params := Array.replicate m {} } : URIParamsLst) = { params := Array.replicate m {} } := by
+  unfold shPl
+  simp only [Array.map_replicate, shUp_new]
+
+theorem shPl_cur (k : Nat) (l : URIParamsLst) : (shPl k l).cur = shUp k l.cur := by
+  unfold URIParamsLst.cur shPl
+  simp only [Array.size_map]
+  split
+  · rename_i h; simp [h]
+  · rfl
+
+theorem shPl_setCur (k : Nat) (l : URIParamsLst) (u : URIParam) :
+    (shPl k l).setCur (shUp k u) = shPl k (l.setCur u) := by
+  unfold URIParamsLst.setCur shPl
+  simp only [Array.size_map]
+  split
+  · simp only [Array.set!_eq_setIfInBounds, Array.map_setIfInBounds]
+  · rfl
+
+theorem shPl_next (k : Nat) (l : URIParamsLst) (tp : PTokParam) (ty : Nat) :
+    (shPl k l).next (shTp k tp) ty = shPl k (l.next tp ty) := by
+  have h := shPl_setCur k l { param := tp, t := ty }
+  have e : shUp k { param := tp, t := ty } = { param := shTp k tp, t := ty } := rfl
+  rw [e] at h
+  unfold URIParamsLst.next
+  rw [h]
+  have hs : (shPl k l).params.size = l.params.size := by unfold shPl; simp only [Array.size_map]
+  have hn : (shPl k l).n = l.n := rfl
+  rw [hs, hn]
+  split <;> rfl
+
+
+def shPlRes (k : Nat) (r : Nat × Nat × Err × URIParamsLst) : Nat × Nat × Err × URIParamsLst :=
+  (k + r.1, r.2.1, r.2.2.1, shPl k r.2.2.2)
+
+/-- legitimate argument of ParseAllURIParams at offset `o` for the shift theorem: fields end at or before `o`
+    (`SrPlIn`), unused slots are zero (`plClean`), and the element in progress is a legitimate, non-failed
+    token-parameter object -/
+structure SpPlEntry (o : Nat) (l : URIParamsLst) : Prop where
+  inb : SrPlIn o l
+  clean : plClean l
+  pos : SpTpPos o l.cur.param
+  ne : l.cur.param.state ≠ .err
+
+/-- the name of a translated object denotes the same bytes -/
+theorem shTp_name_get? (pre t : Buf) (p : PTokParam) (hin : p.name.inside t.size) (hfit : pre.size + t.size ≤ 65535) :
+    (shTp pre.size p).name.get? (pre ++ t) = p.name.get? t := by
+  show (if spTpLive p.state then shF pre.size p.name else shO pre.size p.name).get? (pre ++ t) = _
+  split
+  · exact get?_shiftF pre t p.name hin hfit
+  · exact get?_shO pre t p.name hin hfit
+
+theorem uriParamsLoop_shift (pre t : Buf) (flags : Nat) (hfit : pre.size + t.size ≤ 65535) (offs : Nat)
+    (l : URIParamsLst) (vNo : Nat) (ho : offs ≤ t.size) (hE : SpPlEntry offs l) :
+    uriParamsLoop (pre ++ t) (pre.size + offs) (shPl pre.size l) flags vNo =
+      shPlRes pre.size (uriParamsLoop t offs l flags vNo) := by
+  revert ho hE
+  induction offs, l, vNo using uriParamsLoop_induct t flags with
+  | step offs l vNo ih =>
+    intro ho hE
+    have hcur : (shPl pre.size l).cur.param = shTp pre.size l.cur.param := by rw [shPl_cur]; rfl
+    have hcur2 : ∀ q : PTokParam, ({ (shPl pre.size l).cur with param := shTp pre.size q } : URIParam) =
+        shUp pre.size { l.cur with param := q } := by intro q; rw [shPl_cur]; rfl
+    rcases hp : parseTokenParam t offs l.cur.param flags with ⟨next, e1, tp⟩
+    have hT := parseTokenParam_safe t offs l.cur.param flags ho hE.inb.cur
+    rw [hp] at hT
+    have hlo : offs ≤ next := hT.lo
+    have hhi : next ≤ t.size := hT.hi
+    have hout : SrTpIn t.size tp := hT.out
+    have htight : e1 ≠ .ok → SrTpIn next tp := fun hne => hT.tight (Or.inl hne)
+    obtain ⟨nm, hnm⟩ := field_get?_some t tp.name hout.name (by omega)
+    have hnm' : (shTp pre.size tp).name.get? (pre ++ t) = some nm := by
+      rw [shTp_name_get? pre t tp hout.name hfit]; exact hnm
+    have hgood : spGoodV e1 = true →
+        parseTokenParam (pre ++ t) (pre.size + offs) (shPl pre.size l).cur.param flags =
+          (pre.size + next, e1, shTp pre.size tp) := by
+      intro hg
+      have hx := parseTokenParam_shift pre t offs l.cur.param flags hfit ho ⟨hE.inb.cur, hE.pos⟩ hE.ne
+        (by rw [hp]; exact hg)
+      rw [hp] at hx; rw [hcur]; exact hx
+    by_cases hm : e1 = .moreBytes
+    · subst hm
+      rw [uriParamsLoop_eq_more hp, uriParamsLoop_eq_more (hgood rfl), hcur2, shPl_setCur]; rfl
+    by_cases hv : e1 = .moreValues
+    · subst hv
+      rw [uriParamsLoop_mv hp hnm, uriParamsLoop_mv (hgood rfl) hnm', shPl_next]
+      have hst : (shPl pre.size l).cur.param.state = l.cur.param.state := by rw [hcur]; rfl
+      have hst2 : (shPl pre.size (l.next tp (uriParamResolve nm))).cur.param.state =
+          (l.next tp (uriParamResolve nm)).cur.param.state := by rw [shPl_cur]; rfl
+      rw [hst, hst2, Array.size_append]
+      by_cases hg : next ≤ t.size ∧ (offs < next ∨ (offs = next ∧ l.cur.param.state = .fNxt ∧
+          (l.next tp (uriParamResolve nm)).cur.param.state ≠ .fNxt))
+      · rw [if_pos hg, if_pos ⟨by omega, hg.2.elim (fun h => Or.inl (by omega)) (fun h => Or.inr ⟨by omega, h.2⟩)⟩]
+        have hn := (hE.inb.mono hlo).next tp (uriParamResolve nm) (htight (by decide))
+        have hc := plClean_next tp (uriParamResolve nm) hE.clean
+        exact ih next tp nm hp hnm hg hhi ⟨hn, hc.1, by rw [hc.2]; exact SpTpPos.new _, by rw [hc.2]; decide⟩
+      · rw [if_neg hg, if_neg (fun h => hg ⟨by omega, h.2.elim (fun h => Or.inl (by omega))
+          (fun h => Or.inr ⟨by omega, h.2⟩)⟩)]
+        rfl
+    by_cases hk : e1 = .ok
+    · subst hk
+      rw [uriParamsLoop_eq_last hp (Or.inl rfl) hnm, uriParamsLoop_eq_last (hgood rfl) (Or.inl rfl) hnm', shPl_next]; rfl
+    by_cases he : e1 = .eoh
+    · subst he
+      rw [uriParamsLoop_eq_last hp (Or.inr rfl) hnm, uriParamsLoop_eq_last (hgood rfl) (Or.inr rfl) hnm', shPl_next]; rfl
+    · have hany := parseTokenParam_shift_any pre t offs l.cur.param flags hfit ho ⟨hE.inb.cur, hE.pos⟩
+      rw [hp, ← hcur] at hany
+      rcases hp' : parseTokenParam (pre ++ t) (pre.size + offs) (shPl pre.size l).cur.param flags with ⟨a, b, c⟩
+      rw [hp'] at hany
+      obtain ⟨h1, h2, -⟩ := hany
+      simp only at h1 h2
+      subst h1 h2
+      rw [uriParamsLoop_err hp hk hv he hm, uriParamsLoop_err hp' hk hv he hm]
+      have := shPl_setCur pre.size l {}
+      rw [shUp_new] at this
+      rw [this]; rfl
+
+
+/-- **ParseAllURIParams is position independent** (every flag combination, any capacity, every legitimate list) -/
+theorem parseAllURIParams_shift (pre t : Buf) (offs : Nat) (l : URIParamsLst) (flags : Nat)
+    (hfit : pre.size + t.size ≤ 65535) (ho : offs ≤ t.size) (hE : SpPlEntry offs l) :
+    parseAllURIParams (pre ++ t) (pre.size + offs) (shPl pre.size l) flags =
+      shPlRes pre.size (parseAllURIParams t offs l flags) :=
+  uriParamsLoop_shift pre t _ hfit offs l 0 ho hE
+
+theorem spPl_cur_new (m : Nat) : ({ params := Array.replicate m {} } : URIParamsLst).cur = {} := by
+  unfold URIParamsLst.cur
+  split
+  · rename_i h; simp only [Array.size_replicate] at h; simp [h]
+  · rfl
+
+theorem SpPlEntry.new (o m : Nat) : SpPlEntry o ({ params := Array.replicate m {} } : URIParamsLst) :=
+  ⟨srPlIn_new o m, (plOK_new #[] m).2, by rw [spPl_cur_new]; exact SpTpPos.new o, by rw [spPl_cur_new]; decide⟩
+
+/-- … from a new list of any capacity -/
+theorem parseAllURIParams_shift_new (pre t : Buf) (offs m : Nat) (flags : Nat)
+    (hfit : pre.size + t.size ≤ 65535) (ho : offs ≤ t.size) :
+    parseAllURIParams (pre ++ t) (pre.size + offs) { params := Array.replicate m {} } flags =
+      shPlRes pre.size (parseAllURIParams t offs { params := Array.replicate m {} } flags) := by
+  have := parseAllURIParams_shift pre t offs _ flags hfit ho (SpPlEntry.new offs m)
+  rw [shPl_new] at this; exact this
+
+theorem spPl_reset_get {l : URIParamsLst} (h : plClean l) (j : Nat) (hj : j < l.params.size) :
+    l.reset.params[j]! = {} := by
+  show (clearUpToP l.params {} l.n)[j]! = {}
+  rw [clearUpToP_get _ _ _ _ hj]
+  split
+  · rfl
+  · exact h.1 j (by omega) hj
+
+theorem spPl_reset_cur {l : URIParamsLst} (h : plClean l) : l.reset.cur = {} := by
+  have hsz : l.reset.params.size = l.params.size := clearUpToP_size _ _ _
+  unfold URIParamsLst.cur
+  split
+  · rename_i hin
+    rw [hsz] at hin
+    have : l.reset.n = 0 := rfl
+    rw [this] at hin ⊢
+    exact spPl_reset_get h 0 hin
+  · rfl
+
+theorem SpPlEntry.reset (o : Nat) {l : URIParamsLst} (h : plClean l) : SpPlEntry o l.reset :=
+  ⟨srPlIn_reset_clean o h, (plOK_reset #[] h).1.2, by rw [spPl_reset_cur h]; exact SpTpPos.new o,
+    by rw [spPl_reset_cur h]; decide⟩
+
+/-- a reset list holds only zero elements: the translation leaves it unchanged -/
+theorem shPl_reset (k : Nat) {l : URIParamsLst} (h : plClean l) : shPl k l.reset = l.reset := by
+  have hsz : l.reset.params.size = l.params.size := clearUpToP_size _ _ _
+  have hp : l.reset.params.map (shUp k) = l.reset.params := by
+    apply Array.ext
+    · simp only [Array.size_map]
+    · intro j h1 h2
+      rw [Array.getElem_map]
+      have hj : j < l.params.size := by rw [← hsz]; exact h2
+      have := spPl_reset_get h j hj
+      rw [getElem!_pos l.reset.params j h2] at this
+      rw [this]; rfl
+  show ({ l.reset with params := l.reset.params.map (shUp k), tmp := shUp k l.reset.tmp } : URIParamsLst) = l.reset
+  rw [hp]; rfl
+
+/-- … from a reset list (whatever it held before, e.g. fields of another buffer) -/
+theorem parseAllURIParams_shift_reset (pre t : Buf) (offs : Nat) (l : URIParamsLst) (flags : Nat)
+    (hfit : pre.size + t.size ≤ 65535) (ho : offs ≤ t.size) (hc : plClean l) :
+    parseAllURIParams (pre ++ t) (pre.size + offs) l.reset flags =
+      shPlRes pre.size (parseAllURIParams t offs l.reset flags) := by
+  have := parseAllURIParams_shift pre t offs _ flags hfit ho (SpPlEntry.reset offs hc)
+  rw [shPl_reset _ hc] at this; exact this
+
+/-- after MoreBytes the returned list is a legitimate argument at the returned offset -/
+theorem uriParamsLoop_shiftEntry (b : Buf) (flags : Nat) (hfit : b.size ≤ 65535) (offs : Nat) (l : URIParamsLst)
+    (vNo : Nat) (ho : offs ≤ b.size) (hE : SpPlEntry offs l)
+    (hm : (uriParamsLoop b offs l flags vNo).2.2.1 = .moreBytes) :
+    SpPlEntry (uriParamsLoop b offs l flags vNo).1 (uriParamsLoop b offs l flags vNo).2.2.2 := by
+  revert ho hE hm
+  induction offs, l, vNo using uriParamsLoop_induct b flags with
+  | step offs l vNo ih =>
+    intro ho hE hm
+    have hsafe := uriParamsLoop_safe b flags hfit offs l vNo ho hE.inb
+    rcases hp : parseTokenParam b offs l.cur.param flags with ⟨next, e1, tp⟩
+    have hT := parseTokenParam_safe b offs l.cur.param flags ho hE.inb.cur
+    rw [hp] at hT
+    obtain ⟨nm, hnm⟩ := field_get?_some b tp.name hT.out.name hfit
+    by_cases hmb : e1 = .moreBytes
+    · subst hmb
+      have hent := parseTokenParam_shiftEntry b offs l.cur.param flags hfit ho ⟨hE.inb.cur, hE.pos⟩ (by rw [hp])
+      have hgs := parseTokenParam_good_state b offs l.cur.param flags hE.ne (by rw [hp]; rfl)
+      rw [hp] at hent hgs
+      have hin := hsafe.tight (by rw [hm]; decide)
+      rw [uriParamsLoop_eq_more hp] at hin ⊢
+      exact ⟨hin, plClean_setCur _ hE.clean, by rw [pSetCur_cur]; exact hent.2, by rw [pSetCur_cur]; exact hgs⟩
+    by_cases hv : e1 = .moreValues
+    · subst hv
+      rw [uriParamsLoop_mv hp hnm] at hm ⊢
+      split
+      · rename_i hg
+        rw [if_pos hg] at hm
+        have hn := (hE.inb.mono hT.lo).next tp (uriParamResolve nm) (hT.tight (Or.inl (fun hh => nomatch hh)))
+        have hc := plClean_next tp (uriParamResolve nm) hE.clean
+        exact ih next tp nm hp hnm hg hT.hi ⟨hn, hc.1, by rw [hc.2]; exact SpTpPos.new _, by rw [hc.2]; decide⟩ hm
+      · rename_i hg; rw [if_neg hg] at hm; cases hm
+    by_cases hk : e1 = .ok
+    · subst hk; rw [uriParamsLoop_eq_last hp (Or.inl rfl) hnm] at hm; cases hm
+    by_cases he : e1 = .eoh
+    · subst he; rw [uriParamsLoop_eq_last hp (Or.inr rfl) hnm] at hm; cases hm
+    · rw [uriParamsLoop_err hp hk hv he hmb] at hm; exact absurd hm hmb
+
+theorem parseAllURIParams_shiftEntry (b : Buf) (offs : Nat) (l : URIParamsLst) (flags : Nat) (hfit : b.size ≤ 65535)
+    (ho : offs ≤ b.size) (hE : SpPlEntry offs l) (hm : (parseAllURIParams b offs l flags).2.2.1 = .moreBytes) :
+    SpPlEntry (parseAllURIParams b offs l flags).1 (parseAllURIParams b offs l flags).2.2.2 :=
+  uriParamsLoop_shiftEntry b _ hfit offs l 0 ho hE hm
+
+/-- what a caller reads from the moved list: counts, type mask, panic flag, capacity are identical -/
+theorem shPl_scalars (k : Nat) (l : URIParamsLst) :
+    (shPl k l).n = l.n ∧ (shPl k l).types = l.types ∧ (shPl k l).pnc = l.pnc ∧
+    (shPl k l).params.size = l.params.size ∧ (shPl k l).pNo = l.pNo ∧ (shPl k l).more = l.more ∧
+    (shPl k l).isEmpty = l.isEmpty := by
+  refine ⟨rfl, rfl, rfl, Array.size_map .., ?_, ?_, rfl⟩
+  · unfold URIParamsLst.pNo shPl; simp only [Array.size_map]
+  · unfold URIParamsLst.more shPl; simp only [Array.size_map]
+
+/-- slot `j` of the moved list is the moved slot `j` (same parameter type) -/
+theorem shPl_get (k : Nat) (l : URIParamsLst) (j : Nat) :
+    (shPl k l).params[j]? = (l.params[j]?).map (shUp k) := by
+  show (l.params.map (shUp k))[j]? = _
+  rw [Array.getElem?_map]
+
+/-- what the translation does to a stored element: the parameter type is unchanged; in every state in which the
+    parser has set them (`spTpLive`: all but the initial and the error state) `all` and `name` are moved by `k`; the
+    value is moved unless absent (`Offs = 0`); state and panic flag are unchanged -/
+theorem shUp_meaning (k : Nat) (u : URIParam) (hl : spTpLive u.param.state = true) :
+    (shUp k u).t = u.t ∧ (shUp k u).param.all = ⟨u.param.all.offs + k, u.param.all.len⟩ ∧
+    (shUp k u).param.name = ⟨u.param.name.offs + k, u.param.name.len⟩ ∧
+    (shUp k u).param.val = (if u.param.val.offs = 0 then u.param.val else ⟨u.param.val.offs + k, u.param.val.len⟩) ∧
+    (shUp k u).param.state = u.param.state ∧ (shUp k u).param.pnc = u.param.pnc := by
+  refine ⟨rfl, ?_, ?_, rfl, rfl, rfl⟩
+  · show (if spTpLive u.param.state then shF k u.param.all else shO k u.param.all) = _
+    rw [if_pos hl]; rfl
+  · show (if spTpLive u.param.state then shF k u.param.name else shO k u.param.name) = _
+    rw [if_pos hl]; rfl
+
+
+/-! ### the URI header list -/
+
+/-- **the URI-header list moved by `k`**: every slot and the scratch element moved with `shTp k`; count unchanged -/
+def shHl (k : Nat) (l : URIHdrsLst) : URIHdrsLst :=
+  { l with hdrs := l.hdrs.map (shTp k), tmp := shTp k l.tmp }
+
+theorem shHl_new (k m : Nat) :
+    shHl k ({ hdrs := Array.replicate m {} } : URIHdrsLst) = { hdrs := Array.replicate m {} } := by
+  unfold shHl
+  simp only [Array.map_replicate, shTp_new]
+
+theorem shHl_cur (k : Nat) (l : URIHdrsLst) : (shHl k l).cur = shTp k l.cur := by
+  unfold URIHdrsLst.cur shHl
+  simp only [Array.size_map]
+  split
+  · rename_i h; simp [h]
+  · rfl
+
+theorem shHl_setCur (k : Nat) (l : URIHdrsLst) (u : PTokParam) :
+    (shHl k l).setCur (shTp k u) = shHl k (l.setCur u) := by
+  unfold URIHdrsLst.setCur shHl
+  simp only [Array.size_map]
+  split
+  · simp only [Array.set!_eq_setIfInBounds, Array.map_setIfInBounds]
+  · rfl
+
+theorem shHl_next (k : Nat) (l : URIHdrsLst) (tp : PTokParam) :
+    (shHl k l).next (shTp k tp) = shHl k (l.next tp) := by
+  have h := shHl_setCur k l tp
+  unfold URIHdrsLst.next
+  rw [h]
+  have hs : (shHl k l).hdrs.size = l.hdrs.size := by unfold shHl; simp only [Array.size_map]
+  have hn : (shHl k l).n = l.n := rfl
+  rw [hs, hn]
+  split <;> rfl
+
+def shHlRes (k : Nat) (r : Nat × Nat × Err × URIHdrsLst) : Nat × Nat × Err × URIHdrsLst :=
+  (k + r.1, r.2.1, r.2.2.1, shHl k r.2.2.2)
+
+/-- legitimate argument of ParseAllURIHdrs at offset `o` for the shift theorem -/
+structure SpHlEntry (o : Nat) (l : URIHdrsLst) : Prop where
+  inb : SrHlIn o l
+  clean : hlClean l
+  pos : SpTpPos o l.cur
+  ne : l.cur.state ≠ .err
+
+theorem uriHdrsLoop_shift (pre t : Buf) (flags : Nat) (hfit : pre.size + t.size ≤ 65535) (offs : Nat)
+    (l : URIHdrsLst) (vNo : Nat) (ho : offs ≤ t.size) (hE : SpHlEntry offs l) :
+    uriHdrsLoop (pre ++ t) (pre.size + offs) (shHl pre.size l) flags vNo =
+      shHlRes pre.size (uriHdrsLoop t offs l flags vNo) := by
+  revert ho hE
+  induction offs, l, vNo using uriHdrsLoop_induct t flags with
+  | step offs l vNo ih =>
+    intro ho hE
+    have hcur : (shHl pre.size l).cur = shTp pre.size l.cur := shHl_cur _ _
+    rcases hp : parseTokenParam t offs l.cur flags with ⟨next, e1, tp⟩
+    have hT := parseTokenParam_safe t offs l.cur flags ho hE.inb.cur
+    rw [hp] at hT
+    have hlo : offs ≤ next := hT.lo
+    have hhi : next ≤ t.size := hT.hi
+    have htight : e1 ≠ .ok → SrTpIn next tp := fun hne => hT.tight (Or.inl hne)
+    have hgood : spGoodV e1 = true →
+        parseTokenParam (pre ++ t) (pre.size + offs) (shHl pre.size l).cur flags =
+          (pre.size + next, e1, shTp pre.size tp) := by
+      intro hg
+      have hx := parseTokenParam_shift pre t offs l.cur flags hfit ho ⟨hE.inb.cur, hE.pos⟩ hE.ne
+        (by rw [hp]; exact hg)
+      rw [hp] at hx; rw [hcur]; exact hx
+    by_cases hm : e1 = .moreBytes
+    · subst hm
+      rw [uriHdrsLoop_eq_more hp, uriHdrsLoop_eq_more (hgood rfl), shHl_setCur]; rfl
+    by_cases hv : e1 = .moreValues
+    · subst hv
+      rw [uriHdrsLoop_mv hp, uriHdrsLoop_mv (hgood rfl), shHl_next]
+      have hst : (shHl pre.size l).cur.state = l.cur.state := by rw [hcur]; rfl
+      have hst2 : (shHl pre.size (l.next tp)).cur.state = (l.next tp).cur.state := by rw [shHl_cur]; rfl
+      rw [hst, hst2, Array.size_append]
+      by_cases hg : next ≤ t.size ∧ (offs < next ∨ (offs = next ∧ l.cur.state = .fNxt ∧
+          (l.next tp).cur.state ≠ .fNxt))
+      · rw [if_pos hg, if_pos ⟨by omega, hg.2.elim (fun h => Or.inl (by omega)) (fun h => Or.inr ⟨by omega, h.2⟩)⟩]
+        have hn := (hE.inb.mono hlo).next tp (htight (fun hh => nomatch hh))
+        have hc := hlClean_next tp hE.clean
+        exact ih next tp hp hg hhi ⟨hn, hc.1, by rw [hc.2]; exact SpTpPos.new _, by rw [hc.2]; decide⟩
+      · rw [if_neg hg, if_neg (fun h => hg ⟨by omega, h.2.elim (fun h => Or.inl (by omega))
+          (fun h => Or.inr ⟨by omega, h.2⟩)⟩)]
+        rfl
+    by_cases hk : e1 = .ok
+    · subst hk
+      rw [uriHdrsLoop_eq_last hp (Or.inl rfl), uriHdrsLoop_eq_last (hgood rfl) (Or.inl rfl), shHl_next]; rfl
+    by_cases he : e1 = .eoh
+    · subst he
+      rw [uriHdrsLoop_eq_last hp (Or.inr rfl), uriHdrsLoop_eq_last (hgood rfl) (Or.inr rfl), shHl_next]; rfl
+    · have hany := parseTokenParam_shift_any pre t offs l.cur flags hfit ho ⟨hE.inb.cur, hE.pos⟩
+      rw [hp, ← hcur] at hany
+      rcases hp' : parseTokenParam (pre ++ t) (pre.size + offs) (shHl pre.size l).cur flags with ⟨a, b, c⟩
+      rw [hp'] at hany
+      obtain ⟨h1, h2, -⟩ := hany
+      simp only at h1 h2
+      subst h1 h2
+      rw [uriHdrsLoop_err hp hk hv he hm, uriHdrsLoop_err hp' hk hv he hm]
+      have := shHl_setCur pre.size l {}
+      rw [shTp_new] at this
+      rw [this]; rfl
+
+/-- **ParseAllURIHdrs is position independent** (every flag combination, any capacity, every legitimate list) -/
+theorem parseAllURIHdrs_shift (pre t : Buf) (offs : Nat) (l : URIHdrsLst) (flags : Nat)
+    (hfit : pre.size + t.size ≤ 65535) (ho : offs ≤ t.size) (hE : SpHlEntry offs l) :
+    parseAllURIHdrs (pre ++ t) (pre.size + offs) (shHl pre.size l) flags =
+      shHlRes pre.size (parseAllURIHdrs t offs l flags) :=
+  uriHdrsLoop_shift pre t _ hfit offs l 0 ho hE
+
+theorem spHl_cur_new (m : Nat) : ({ hdrs := Array.replicate m {} } : URIHdrsLst).cur = {} := by
+  unfold URIHdrsLst.cur
+  split
+  · rename_i h; simp only [Array.size_replicate] at h; simp [h]
+  · rfl
+
+theorem SpHlEntry.new (o m : Nat) : SpHlEntry o ({ hdrs := Array.replicate m {} } : URIHdrsLst) :=
+  ⟨srHlIn_new o m, hlClean_new m, by rw [spHl_cur_new]; exact SpTpPos.new o, by rw [spHl_cur_new]; decide⟩
+
+/-- … from a new list of any capacity -/
+theorem parseAllURIHdrs_shift_new (pre t : Buf) (offs m : Nat) (flags : Nat)
+    (hfit : pre.size + t.size ≤ 65535) (ho : offs ≤ t.size) :
+    parseAllURIHdrs (pre ++ t) (pre.size + offs) { hdrs := Array.replicate m {} } flags =
+      shHlRes pre.size (parseAllURIHdrs t offs { hdrs := Array.replicate m {} } flags) := by
+  have := parseAllURIHdrs_shift pre t offs _ flags hfit ho (SpHlEntry.new offs m)
+  rw [shHl_new] at this; exact this
+
+theorem spHl_reset_get {l : URIHdrsLst} (h : hlClean l) (j : Nat) (hj : j < l.hdrs.size) :
+    l.reset.hdrs[j]! = {} := by
+  show (clearUpToP l.hdrs {} l.n)[j]! = {}
+  rw [clearUpToP_get _ _ _ _ hj]
+  split
+  · rfl
+  · exact h.1 j (by omega) hj
+
+theorem SpHlEntry.reset (o : Nat) {l : URIHdrsLst} (h : hlClean l) : SpHlEntry o l.reset := by
+  have hr := hlClean_reset h
+  exact ⟨srHlIn_reset_clean o h, hr.1, by rw [hr.2.2]; exact SpTpPos.new o, by rw [hr.2.2]; decide⟩
+
+theorem shHl_reset (k : Nat) {l : URIHdrsLst} (h : hlClean l) : shHl k l.reset = l.reset := by
+  have hsz : l.reset.hdrs.size = l.hdrs.size := clearUpToP_size _ _ _
+  have hp : l.reset.hdrs.map (shTp k) = l.reset.hdrs := by
+    apply Array.ext
+    · simp only [Array.size_map]
+    · intro j h1 h2
+      rw [Array.getElem_map]
+      have hj : j < l.hdrs.size := by rw [← hsz]; exact h2
+      have := spHl_reset_get h j hj
+      rw [getElem!_pos l.reset.hdrs j h2] at this
+      rw [this]; rfl
+  show ({ l.reset with hdrs := l.reset.hdrs.map (shTp k), tmp := shTp k l.reset.tmp } : URIHdrsLst) = l.reset
+  rw [hp]; rfl
+
+/-- … from a reset list -/
+theorem parseAllURIHdrs_shift_reset (pre t : Buf) (offs : Nat) (l : URIHdrsLst) (flags : Nat)
+    (hfit : pre.size + t.size ≤ 65535) (ho : offs ≤ t.size) (hc : hlClean l) :
+    parseAllURIHdrs (pre ++ t) (pre.size + offs) l.reset flags =
+      shHlRes pre.size (parseAllURIHdrs t offs l.reset flags) := by
+  have := parseAllURIHdrs_shift pre t offs _ flags hfit ho (SpHlEntry.reset offs hc)
+  rw [shHl_reset _ hc] at this; exact this
+
+/-- after MoreBytes the returned list is a legitimate argument at the returned offset -/
+theorem uriHdrsLoop_shiftEntry (b : Buf) (flags : Nat) (hfit : b.size ≤ 65535) (offs : Nat) (l : URIHdrsLst)
+    (vNo : Nat) (ho : offs ≤ b.size) (hE : SpHlEntry offs l)
+    (hm : (uriHdrsLoop b offs l flags vNo).2.2.1 = .moreBytes) :
+    SpHlEntry (uriHdrsLoop b offs l flags vNo).1 (uriHdrsLoop b offs l flags vNo).2.2.2 := by
+  revert ho hE hm
+  induction offs, l, vNo using uriHdrsLoop_induct b flags with
+  | step offs l vNo ih =>
+    intro ho hE hm
+    have hsafe := uriHdrsLoop_safe b flags offs l vNo ho hE.inb
+    rcases hp : parseTokenParam b offs l.cur flags with ⟨next, e1, tp⟩
+    have hT := parseTokenParam_safe b offs l.cur flags ho hE.inb.cur
+    rw [hp] at hT
+    by_cases hmb : e1 = .moreBytes
+    · subst hmb
+      have hent := parseTokenParam_shiftEntry b offs l.cur flags hfit ho ⟨hE.inb.cur, hE.pos⟩ (by rw [hp])
+      have hgs := parseTokenParam_good_state b offs l.cur flags hE.ne (by rw [hp]; rfl)
+      rw [hp] at hent hgs
+      have hin := hsafe.tight (by rw [hm]; decide)
+      rw [uriHdrsLoop_eq_more hp] at hin ⊢
+      exact ⟨hin, hlClean_setCur _ hE.clean, by rw [hSetCur_cur]; exact hent.2, by rw [hSetCur_cur]; exact hgs⟩
+    by_cases hv : e1 = .moreValues
+    · subst hv
+      rw [uriHdrsLoop_mv hp] at hm ⊢
+      split
+      · rename_i hg
+        rw [if_pos hg] at hm
+        have hn := (hE.inb.mono hT.lo).next tp (hT.tight (Or.inl (fun hh => nomatch hh)))
+        have hc := hlClean_next tp hE.clean
+        exact ih next tp hp hg hT.hi ⟨hn, hc.1, by rw [hc.2]; exact SpTpPos.new _, by rw [hc.2]; decide⟩ hm
+      · rename_i hg; rw [if_neg hg] at hm; cases hm
+    by_cases hk : e1 = .ok
+    · subst hk; rw [uriHdrsLoop_eq_last hp (Or.inl rfl)] at hm; cases hm
+    by_cases he : e1 = .eoh
+    · subst he; rw [uriHdrsLoop_eq_last hp (Or.inr rfl)] at hm; cases hm
+    · rw [uriHdrsLoop_err hp hk hv he hmb] at hm; exact absurd hm hmb
+
+theorem parseAllURIHdrs_shiftEntry (b : Buf) (offs : Nat) (l : URIHdrsLst) (flags : Nat) (hfit : b.size ≤ 65535)
+    (ho : offs ≤ b.size) (hE : SpHlEntry offs l) (hm : (parseAllURIHdrs b offs l flags).2.2.1 = .moreBytes) :
+    SpHlEntry (parseAllURIHdrs b offs l flags).1 (parseAllURIHdrs b offs l flags).2.2.2 :=
+  uriHdrsLoop_shiftEntry b _ hfit offs l 0 ho hE hm
+
+theorem shHl_scalars (k : Nat) (l : URIHdrsLst) :
+    (shHl k l).n = l.n ∧ (shHl k l).hdrs.size = l.hdrs.size ∧ (shHl k l).hNo = l.hNo ∧
+    (shHl k l).more = l.more ∧ (shHl k l).isEmpty = l.isEmpty := by
+  refine ⟨rfl, Array.size_map .., ?_, ?_, rfl⟩
+  · unfold URIHdrsLst.hNo shHl; simp only [Array.size_map]
+  · unfold URIHdrsLst.more shHl; simp only [Array.size_map]
+
+theorem shHl_get (k : Nat) (l : URIHdrsLst) (j : Nat) :
+    (shHl k l).hdrs[j]? = (l.hdrs[j]?).map (shTp k) := by
+  show (l.hdrs.map (shTp k))[j]? = _
+  rw [Array.getElem?_map]
+
 end Sipsp
